@@ -53,7 +53,7 @@ func rulesC01(w *World, r *Report) {
 		}
 		r.role("kind → wire codec", lines)
 	}
-	w.ruleSetterKinds(r, "C01.R1 typed setters match the kinds reaching them")
+	w.ruleSetterKindsPX(r, "C01.R1 typed setters match the kinds reaching them")
 	w.ruleEnsureFamilies(r, "C01.R1 conversion helpers accept the readers' result types")
 	// R2
 	w.ruleEmittedTagsDispatch(r, "C01.R2 emitted tags dispatch to their reader")
